@@ -213,7 +213,7 @@ func TestVF_C33_SQLS3(t *testing.T) {
 		if len(p.Segs) > 1 && rapid.Bool().Draw(rt, "force-download-fault") {
 			c := rapid.IntRange(0, p.Cycles-1).Draw(rt, "forced-cycle")
 			if p.Visible[c] > 1 {
-				k := c33FaultKey{c, rapid.IntRange(0, p.Visible[c]-2).Draw(rt, "forced-seg"), "decode"}
+				k := c33FaultKey{c, rapid.IntRange(0, p.Visible[c]-2).Draw(rt, "forced-seg"), "decode"} // a partition-A segment that is not the last one listed
 				if _, ok := p.Faults[k]; !ok {
 					for _, site := range []string{"load", "sink", "commit"} {
 						delete(p.Faults, c33FaultKey{k.Cycle, k.Seg, site})
@@ -261,7 +261,7 @@ func TestVF_C33_SQLS3(t *testing.T) {
 		rd := &c33ReplayDecoder{clean: map[int]c33Outcome{}, fault: map[[2]int]c33Outcome{}}
 		ctx := context.Background()
 		for i, s := range p.Segs {
-			recs, err := real.Decode(ctx, s.Key, s.Key+".index", c33Topic, c33Partition)
+			recs, err := real.Decode(ctx, s.Key, s.Key+".index", c33Topic, s.Part)
 			if err != nil {
 				fmt.Println("VF-INCONCLUSIVE: intact download through the in-process S3 endpoint failed:", err)
 				rt.Fatalf("harness: clean Decode(%s): %v", s.Key, err)
@@ -289,7 +289,7 @@ func TestVF_C33_SQLS3(t *testing.T) {
 				s3.status[s.Key] = http.StatusServiceUnavailable
 			}
 			s3.mu.Unlock()
-			recs, err := real.Decode(ctx, s.Key, s.Key+".index", c33Topic, c33Partition)
+			recs, err := real.Decode(ctx, s.Key, s.Key+".index", c33Topic, s.Part)
 			rd.fault[[2]int{k.Cycle, k.Seg}] = c33Outcome{recs: recs, err: err}
 			if err == nil {
 				truncOK++
